@@ -491,3 +491,96 @@ Proof.
       rewrite sin2_cos2, Rmult_1_r. now apply sqrt_square.
     + replace (0 * 0 + 0 * 0) with 0 by ring. apply sqrt_0.
 Qed.
+
+(* ---------------------------------------------------------------- cosine-sum windows *)
+(* the mean of a cosine-sum window of order J < N is its constant coefficient *)
+Lemma cos_window_mean c J N : (J < N)%nat -> wmean (cos_window c J N) N = c 0%nat.
+Proof.
+  intros HJ. assert (HN : (0 < N)%nat) by lia. pose proof (INR_pos N HN) as HNp.
+  unfold wmean, cos_window. rewrite rsumN_swap.
+  rewrite (rsumN_ext _ (fun j => c j * (delta N (Z.of_nat j) * cos 0))).
+  - rewrite (rsumN_single _ (S J) 0%nat) by (try lia; intros j Hj Hne; rewrite delta_small by lia; ring).
+    change (Z.of_nat 0) with 0%Z. rewrite delta_0, cos_0. field. lra.
+  - intros j _. rewrite rsumN_scal. f_equal. rewrite <- cos_sum_delta by assumption.
+    apply rsumN_ext. intros n _. rewrite Rplus_0_r. reflexivity.
+Qed.
+
+(* sum_n cos(n a_j) cos(n a_k + p) cos(n a_m)  and  ... sin(n a_m) *)
+Lemma triple_cos N j k m p : (0 < N)%nat ->
+  rsumN (fun n => cos (INR n * ang N j) * cos (INR n * ang N k + p) * cos (INR n * ang N m)) N
+  = (delta N (k + j + m) + delta N (k + j - m) + delta N (k - j + m) + delta N (k - j - m)) * cos p / 4.
+Proof.
+  intros HN.
+  rewrite (rsumN_ext _ (fun n => / 2 * (cos (INR n * ang N (k + j) + p) * cos (INR n * ang N m + 0)
+                                       + cos (INR n * ang N (k - j) + p) * cos (INR n * ang N m + 0)))).
+  - rewrite rsumN_scal, rsumN_plus, !cos_cos_sum by assumption. rewrite Rplus_0_r, Rminus_0_r. field.
+  - intros n _. rewrite Rplus_0_r, ang_plus, ang_minus by assumption.
+    set (a := INR n * ang N k + p). set (b := INR n * ang N j).
+    replace (INR n * (ang N k + ang N j) + p) with (a + b) by (unfold a, b; ring).
+    replace (INR n * (ang N k - ang N j) + p) with (a - b) by (unfold a, b; ring).
+    rewrite cos_plus, cos_minus. field.
+Qed.
+
+Lemma triple_sin N j k m p : (0 < N)%nat ->
+  rsumN (fun n => cos (INR n * ang N j) * cos (INR n * ang N k + p) * sin (INR n * ang N m)) N
+  = (delta N (k + j + m) - delta N (k + j - m) + delta N (k - j + m) - delta N (k - j - m)) * sin p / 4.
+Proof.
+  intros HN.
+  rewrite (rsumN_ext _ (fun n => / 2 * (cos (INR n * ang N (k + j) + p) * sin (INR n * ang N m + 0)
+                                       + cos (INR n * ang N (k - j) + p) * sin (INR n * ang N m + 0)))).
+  - rewrite rsumN_scal, rsumN_plus, !cos_sin_sum by assumption. rewrite Rplus_0_r, Rminus_0_r. field.
+  - intros n _. rewrite Rplus_0_r, ang_plus, ang_minus by assumption.
+    set (a := INR n * ang N k + p). set (b := INR n * ang N j).
+    replace (INR n * (ang N k + ang N j) + p) with (a + b) by (unfold a, b; ring).
+    replace (INR n * (ang N k - ang N j) + p) with (a - b) by (unfold a, b; ring).
+    rewrite cos_plus, cos_minus. field.
+Qed.
+
+(* THE WINDOWED BIN LAW: through any cosine-sum window of order J (normalised by its mean), a sinusoid of RMS amplitude A
+   and phase p at bin k reads A (cos p, sin p) at its bin as soon as J < 2k and 2k + J < N, i.e. when the bin is more than
+   J/2 bins away from DC and from Nyquist (well inside "farther than the main-lobe width", J + 1 bins) *)
+Lemma window_law c J N k A p : c 0%nat <> 0 -> (J < 2 * k)%nat -> (2 * k + J < N)%nat ->
+  csd_re (windowed (cos_window c J N) N (sinusoid A p N k)) N k = A * cos p /\
+  csd_im (windowed (cos_window c J N) N (sinusoid A p N k)) N k = A * sin p.
+Proof.
+  intros Hc HJ HN2. assert (HN : (0 < N)%nat) by lia. pose proof (INR_pos N HN) as HNp.
+  unfold csd_re, csd_im, dft_re, dft_im, windowed. rewrite cos_window_mean by lia.
+  unfold cos_window, sinusoid. split.
+  - rewrite (rsumN_ext _ (fun n => rsumN (fun j => (A * sqrt 2 / c 0%nat * c j) *
+        (cos (INR n * ang N (Z.of_nat j)) * cos (INR n * ang N (Z.of_nat k) + p) * cos (INR n * ang N (Z.of_nat k)))) (S J))).
+    + rewrite rsumN_swap.
+      rewrite (rsumN_ext _ (fun j => (A * sqrt 2 / c 0%nat * c j) *
+         ((delta N (Z.of_nat k + Z.of_nat j + Z.of_nat k) + delta N (Z.of_nat k + Z.of_nat j - Z.of_nat k)
+           + delta N (Z.of_nat k - Z.of_nat j + Z.of_nat k) + delta N (Z.of_nat k - Z.of_nat j - Z.of_nat k)) * cos p / 4)))
+        by (intros j _; rewrite rsumN_scal, triple_cos by assumption; reflexivity).
+      rewrite (rsumN_single _ (S J) 0%nat).
+      * change (Z.of_nat 0) with 0%Z. rewrite Z.add_0_r, Z.sub_0_r, Z.sub_diag, delta_0.
+        rewrite (delta_small N (Z.of_nat k + Z.of_nat k)) by lia.
+        rewrite <- (scaled N (A * cos p) HN) at 1. field. lra.
+      * lia.
+      * intros j Hj Hne.
+        rewrite (delta_small N (Z.of_nat k + Z.of_nat j + Z.of_nat k)) by lia.
+        rewrite (delta_small N (Z.of_nat k + Z.of_nat j - Z.of_nat k)) by lia.
+        rewrite (delta_small N (Z.of_nat k - Z.of_nat j + Z.of_nat k)) by lia.
+        rewrite (delta_small_neg N (Z.of_nat k - Z.of_nat j - Z.of_nat k)) by lia. field. assumption.
+    + intros n _. unfold Rdiv. rewrite <- !rsumN_scal_r. apply rsumN_ext. intros j _. field. assumption.
+  - rewrite <- rsumN_opp.
+    rewrite (rsumN_ext _ (fun n => rsumN (fun j => (- (A * sqrt 2 / c 0%nat * c j)) *
+        (cos (INR n * ang N (Z.of_nat j)) * cos (INR n * ang N (Z.of_nat k) + p) * sin (INR n * ang N (Z.of_nat k)))) (S J))).
+    + rewrite rsumN_swap.
+      rewrite (rsumN_ext _ (fun j => (- (A * sqrt 2 / c 0%nat * c j)) *
+         ((delta N (Z.of_nat k + Z.of_nat j + Z.of_nat k) - delta N (Z.of_nat k + Z.of_nat j - Z.of_nat k)
+           + delta N (Z.of_nat k - Z.of_nat j + Z.of_nat k) - delta N (Z.of_nat k - Z.of_nat j - Z.of_nat k)) * sin p / 4)))
+        by (intros j _; rewrite rsumN_scal, triple_sin by assumption; reflexivity).
+      rewrite (rsumN_single _ (S J) 0%nat).
+      * change (Z.of_nat 0) with 0%Z. rewrite Z.add_0_r, Z.sub_0_r, Z.sub_diag, delta_0.
+        rewrite (delta_small N (Z.of_nat k + Z.of_nat k)) by lia.
+        rewrite <- (scaled N (A * sin p) HN) at 1. field. lra.
+      * lia.
+      * intros j Hj Hne.
+        rewrite (delta_small N (Z.of_nat k + Z.of_nat j + Z.of_nat k)) by lia.
+        rewrite (delta_small N (Z.of_nat k + Z.of_nat j - Z.of_nat k)) by lia.
+        rewrite (delta_small N (Z.of_nat k - Z.of_nat j + Z.of_nat k)) by lia.
+        rewrite (delta_small_neg N (Z.of_nat k - Z.of_nat j - Z.of_nat k)) by lia. field. assumption.
+    + intros n _. unfold Rdiv. rewrite <- !rsumN_scal_r, <- rsumN_opp. apply rsumN_ext. intros j _. field. assumption.
+Qed.
